@@ -58,9 +58,9 @@ theorem exec_runTrigger_setEff (p : Nat) (b ln fname : String) (n : Spec.MoveRow
       (.ok (.row [] [.int (pcevOf (ledgerMoves ln tbl) n).input, .int (pcevOf (ledgerMoves ln tbl) n).output]), (s.withSP b).enter) := by
     have hsub : (cbs (p + 7)).sub (prevQuery item wher) (plEnvV (mvValsX ln n x) false []) =
         evalQuery (p + 6) (plEnvV (mvValsX ln n x) false []) (prevQuery item wher) := rfl
-    simp only [evalExpr, evalExprs, exec_bind, hsub, hq, hd, exec_pure, evalPureFn_coalesce,
-      show (("" : String).isEmpty || "" == "public" || "" == "pg_catalog") = true from by decide, if_true]
-    cases hp : prevMove (ledgerMoves ln tbl) n <;> simp [pcevOf, hp, Value.isNull, hd]
+    have hco : ((("" : String).isEmpty || "" == "pg_catalog") && "coalesce" == "coalesce") = true := by decide
+    simp only [evalExpr, evalCoalesce, hco, if_true, exec_bind, hsub, hq, exec_pure]
+    cases hp : prevMove (ledgerMoves ln tbl) n <;> simp [pcevOf, hp, Value.isNull, hd, evalCoalesce, exec_bind]
   have hassign := exec_withNewCid (evalExpr (cbs (p + 7)) s.w.types (plEnvV (mvValsX ln n x) false [])
       (Expr.call "" "coalesce" [Expr.subq (prevQuery item wher), dflt_])) (s.withSP b) _ _ hcoal
   rw [enter_withCid] at hassign
